@@ -96,8 +96,14 @@ func (r *Rec) replayOne(path string) int {
 		err error
 	}
 	ch := make(chan res, 1)
-	go func() { v, err := runDoc(d); ch <- res{v, err} }()
 	budget := time.Duration(envInt("VK_REPLAY_TIMEOUT", 200)) * time.Second
+	if os.Getenv("VK_REPLAY_ISOLATE") != "" {
+		// the case may kill the process (the driver is confirming a crash): run it in a child and
+		// turn its death into a verdict with a class that names where it died
+		go func() { v, err := isolated(path, int(budget/time.Second)); ch <- res{v, err} }()
+	} else {
+		go func() { v, err := runDoc(d); ch <- res{v, err} }()
+	}
 	var v *Verdict
 	// the budget is CPU time of this process (a busy machine must not turn a terminating case into a
 	// "hang"); a case that sits idle is bounded by wall time: min(10 x budget, budget + 5 min)
@@ -222,7 +228,7 @@ func (r *Rec) regress() {
 // watchdog → class "hang".
 func isolated(path string, budgetSec int) (*Verdict, error) {
 	cmd := exec.Command(os.Args[0], "-test.run", "^$")
-	cmd.Env = append(os.Environ(), "VK_REPLAY="+path, fmt.Sprintf("VK_REPLAY_TIMEOUT=%d", budgetSec), "VK_CURRENT=")
+	cmd.Env = append(os.Environ(), "VK_REPLAY="+path, fmt.Sprintf("VK_REPLAY_TIMEOUT=%d", budgetSec), "VK_CURRENT=", "VK_REPLAY_ISOLATE=")
 	out, runErr := cmd.CombinedOutput()
 	for _, line := range strings.Split(string(out), "\n") {
 		if strings.HasPrefix(line, "VERDICT-JSON ") {
@@ -245,8 +251,45 @@ func isolated(path string, budgetSec int) (*Verdict, error) {
 		cls := "crash"
 		if strings.Contains(tail, "stack overflow") || strings.Contains(tail, "goroutine stack exceeds") {
 			cls = "stack-overflow"
+			if fn := recurringFrame(string(out)); fn != "" {
+				cls += "@" + fn // where the unbounded recursion runs
+			}
 		}
 		return Bad(cls, "child process died: %v\n%s", runErr, tail), nil
 	}
 	return nil, fmt.Errorf("child gave no verdict")
+}
+
+// recurringFrame names the function that occurs most often among the first frames of the running
+// goroutine in a Go fatal-error dump (the function an unbounded recursion runs in).
+func recurringFrame(dump string) string {
+	i := strings.Index(dump, "[running]:")
+	if i < 0 {
+		return ""
+	}
+	count := map[string]int{}
+	best, n := "", 0
+	frames := 0
+	for _, line := range strings.Split(dump[i:], "\n")[1:] {
+		if line == "" {
+			break
+		}
+		if strings.HasPrefix(line, "\t") {
+			continue
+		}
+		if j := strings.LastIndex(line, "("); j > 0 {
+			line = line[:j]
+		}
+		count[line]++
+		if count[line] > n {
+			best, n = line, count[line]
+		}
+		if frames++; frames >= 60 {
+			break
+		}
+	}
+	if n < 3 {
+		return ""
+	}
+	return best
 }
